@@ -68,6 +68,8 @@ func (o Op) String() string {
 		return "REBUILD-INDEX"
 	case "reopen":
 		return "REOPEN"
+	case "reindex":
+		return "REINDEX-SAME-STORE"
 	case "mkdir", "mkdirall", "remove", "removeall", "stat", "list", "read", "many":
 		return fmt.Sprintf("%s %s", o.K, o.P)
 	case "put":
@@ -249,7 +251,7 @@ func ExecModel(m *model.FS, o Op) string {
 			}
 		}
 		return ""
-	case "rebuild", "reopen":
+	case "rebuild", "reopen", "reindex":
 		return ""
 	case "stat", "read", "list":
 		p := model.Clean(o.P)
